@@ -2,6 +2,7 @@
 # usage: try_patch.sh <patch.diff> <PROP> [more PROPs...]
 # Applies a candidate breaking change to /repo, runs the quick checks of the given properties, reverts.
 P="$1"; shift
+export VERIF_EVIDENCE_DIR=/tmp/verif_evidence_scratch   # evidence/ describes runs on the unchanged tree only
 cd /repo || exit 2
 git diff --quiet || { echo "repo dirty"; exit 2; }
 git apply "$P" || { echo "patch does not apply"; exit 2; }
